@@ -240,6 +240,13 @@ def _rebind_masking(f, work: str, mask: str):
             a, b = norm_text(n.value.left), norm_text(n.value.right)
             if (a == work and b in inv) or (b == work and a in inv):
                 out.append(n)
+        # or through the converter that C01.masking verifies on its own (a native input comes back multiplied by np.invert(mask)):  work = convert_.._to_native(work, mask)
+        if isinstance(n, ast.Assign) and len(n.targets) == 1 and isinstance(n.targets[0], ast.Name) and n.targets[0].id == work and isinstance(n.value, ast.Call) \
+                and norm_text(n.value.func).split(".")[-1] in ("convert_array_2d_to_native", "convert_grid_2d_to_native"):
+            b = {k: norm_text(wire.strip_np_array(v)) for k, v in wire.kw(n.value).items()}
+            args = [norm_text(wire.strip_np_array(a_)) for a_ in n.value.args]
+            if (b.get("array_2d", b.get("grid_2d", args[0] if args else None)) == work) and (b.get("mask_2d", args[1] if len(args) > 1 else None) == mask):
+                out.append(n)
     return out
 
 
